@@ -367,7 +367,7 @@ factor `renormalization = N * norm_new`.  Then `S' * renormalization` are the or
 values, and `eps` is the discarded weight relative to `‖s‖²`.  (`N`, `nn` stand for the two square
 roots.)  Together with orthonormal factors `U`, `V` this is the statement that the squared relative
 reconstruction error equals `eps`. -/
-theorem C15_svd_theta_renorm_partial (tiny : Rat) (o : Options) (s : List Rat) (N nn : Rat)
+theorem C15_svd_theta_renorm (tiny : Rat) (o : Options) (s : List Rat) (N nn : Rat)
     (hN : N * N = sumSq s) (hN0 : N ≠ 0)
     (hnn : nn * nn = (truncate tiny o (s.map (· / N))).norm2) (hnn0 : nn ≠ 0) :
     (∀ x ∈ (truncate tiny o (s.map (· / N))).kept, x / nn * (N * nn) = x * N) ∧
